@@ -408,10 +408,13 @@ class PVLEncoder(object):
         """Returns a ``str`` formatted as a PVL Value based
         on the *value* object according to the rules of this encoder.
         """
-        try:
-            return self.encode_quantity(value)
-        except ValueError:
-            return self.encode_simple_value(value)
+        # Only fall back to a Simple Value if *value* is not a quantity at
+        # all: an error from encoding a quantity's value or units is an error.
+        for quant in self.quantities:
+            if isinstance(value, quant.cls):
+                return self.encode_quantity(value)
+
+        return self.encode_simple_value(value)
 
     def encode_quantity(self, value) -> str:
         """Returns a ``str`` formatted as a PVL Value followed by
